@@ -447,3 +447,33 @@ class Stocked(metaclass=StableHashMeta):
     sku: Optional[Sku] = field(default=None, metadata={"type": "Element"})
     alt: Optional[Sku] = field(default=None, metadata={"type": "Attribute"})
     qty: Optional[int] = field(default=None, metadata={"type": "Element"})
+
+
+# Ordinary application dataclasses (not binding models: a mapping-typed field has no XML form) that happen to share
+# their name with the element name of a binding model, once defined before it and once after it.
+@dataclass
+class Settings1:
+    settings_one_name: str = ""
+    options: dict[str, int] = field(default_factory=dict)
+
+
+@dataclass
+class AppSettings1(metaclass=StableHashMeta):
+    class Meta:
+        name = "Settings1"
+
+    settings_one_name: Optional[str] = field(default=None, metadata={"type": "Element"})
+
+
+@dataclass
+class AppSettings2(metaclass=StableHashMeta):
+    class Meta:
+        name = "Settings2"
+
+    settings_two_name: Optional[str] = field(default=None, metadata={"type": "Element"})
+
+
+@dataclass
+class Settings2:
+    settings_two_name: str = ""
+    options: dict[str, int] = field(default_factory=dict)
